@@ -195,10 +195,14 @@ def r08_1(cx):
             bad = ('the helper uses a construct outside comparison/affine arithmetic: %s' % e, None, None)
         cx.report('R08.1', b, 'contract', bad is None, ('%s = %s (decided on all %d assignments of %s in 0..5, which cover every relative ordering)' % (name, descr, n, '/'.join(syms))) if bad is None else
                   '%s does not compute %s: for %s it yields %s, specified %s' % (name, descr, bad[0], bad[1], bad[2]))
-    b = cx.body(SCI + 'get_match')
-    t = snorm(expand_vars(b, b.def_term(0) or b.local_term(0)))
-    ok = is_call(t, r'^automaton::get_match$') and len(t[2]) == 4 and sf(peel(t[2][0]), 'aut') and sf(t[2][1], 'sid') and t[2][2] == ('c', 0) and t[2][3] == ABS
-    cx.report('R08.1', b, 'get_match', ok, 'reported match = get_match(aut, sid, 0, absolute_pos)' if ok else 'get_match helper returns %s' % tstr(t, 200))
+    if cx.has(SCI + 'get_match'):
+        b = cx.body(SCI + 'get_match')
+        t = snorm(expand_vars(b, b.def_term(0) or b.local_term(0)))
+        ok = is_call(t, r'^automaton::get_match$') and len(t[2]) == 4 and sf(peel(t[2][0]), 'aut') and sf(t[2][1], 'sid') and t[2][2] == ('c', 0) and t[2][3] == ABS
+        cx.report('R08.1', b, 'get_match', ok, 'reported match = get_match(aut, sid, 0, absolute_pos)' if ok else 'get_match helper returns %s' % tstr(t, 200))
+    else:
+        # the one-line method no longer exists: R08.2 requires get_match(aut, sid, 0, absolute_pos) itself at every chunk site
+        cx.report('R08.1', cx.body(NEXT), 'get_match', True, 'no separate get_match method; the chunk sites are checked against get_match(aut, sid, 0, absolute_pos) directly (R08.2)')
 
 
 def chunk_sites(b):
@@ -212,6 +216,15 @@ def chunk_sites(b):
             ch = t[3]['0'][3]['0']
             out.append((bi, si, ch[2], ch[3]))
     return out
+
+
+def _is_cur_match(a):
+    """the match at the current position: self.get_match(), or what that method is: get_match(self.aut, self.sid, 0, self.absolute_pos)"""
+    a = peel_all(a)
+    if is_call(a, r'StreamChunkIter::get_match$') and is_var(peel(a[2][0]), 'self'):
+        return True
+    return (is_call(a, r'^automaton::get_match$') and len(a[2]) == 4 and sf(peel_all(a[2][0]), 'aut') and sf(peel_all(a[2][1]), 'sid')
+            and peel_all(a[2][2]) == ('c', 0) and sf(peel_all(a[2][3]), 'absolute_pos'))
 
 
 @only(STREAM_CONFIGS)
@@ -241,7 +254,7 @@ def r08_2(cx):
             hargs = [peel_all(a) for a in hc[2]]
         good_helper = (variant == 'NonMatch' and helper in ('get_non_match_chunk', 'get_pre_roll_non_match_chunk', 'get_eof_non_match_chunk')) or (variant == 'Match' and helper == 'get_match_chunk')
         if good_helper:
-            good_helper = is_var(hargs[0], 'self') and all(is_call(a, r'StreamChunkIter::get_match$') and is_var(peel(a[2][0]), 'self') for a in hargs[1:])
+            good_helper = is_var(hargs[0], 'self') and all(_is_cur_match(a) for a in hargs[1:])
         cx.report('R08.2', b, 'site:%s/range' % (helper or variant), good_helper,
                   '%s chunk range comes from %s' % (variant, helper) if good_helper else '%s chunk takes its range from %s' % (variant, tstr(R, 160)), line_of(b, bi, si))
         seen[helper] = seen.get(helper, 0) + 1
@@ -259,7 +272,7 @@ def r08_2(cx):
                   'buffer_reported_pos += range.len() with the same range precedes the return' if okacc else 'the returned range is not accounted in buffer_reported_pos exactly once before the return', line_of(b, bi, si))
         if variant == 'Match':
             m = expand_vars(b, fields.get('mat'))
-            okm = is_call(m, r'StreamChunkIter::get_match$') and is_var(peel(m[2][0]), 'self') and (not hargs[1:] or m == hargs[1])
+            okm = _is_cur_match(m) and (not hargs[1:] or m == hargs[1])
             cx.report('R08.2', b, 'site:Match/mat', okm, 'Match chunk carries mat = self.get_match(), the match its range was computed for' if okm else 'Match chunk carries %s' % tstr(m, 100), line_of(b, bi, si))
             # only after the non-match chunk: cut the non-Some edges of get_non_match_chunk(self, mat)
             gs = discr_gates(b, lambda x: is_call(expand_vars(b, x), r'StreamChunkIter::get_non_match_chunk$'))
